@@ -653,7 +653,9 @@ def shard_mix(shard):
 # label names: the menus use A and B; a label is free text, so names that resemble other token classes (a register bank
 # letter followed by letters, digits inside, lower case, underscores, the SDK's own LOOP_EXIT3 style) must work alike
 LABEL_NAMES = [("RETRY", "CLEANUP"), ("MAIN", "QUIT"), ("Rx", "Qy"), ("M1N", "C0X"), ("loop", "exit"), ("L0", "L1"),
-               ("LOOP_EXIT3", "IF_EXIT12"), ("a", "b"), ("RR", "CQ"), ("END", "START")]
+               ("LOOP_EXIT3", "IF_EXIT12"), ("a", "b"), ("RR", "CQ"), ("END", "START"),
+               # names that differ only in case; names that are exactly a register bank letter
+               ("DONE", "done"), ("Loop", "LOOP"), ("R", "Q"), ("C", "M")]
 
 
 def _rename(items, mapping):
